@@ -350,7 +350,11 @@ MANIFEST_TEXT = {
         "text": "Per-instance validation with a proved classifier: every accepted generated program is run; if it is stuck, the proved "
                 "`stuck_reason` (complete taxonomy of stuck terms of the evaluator model, Theorem stuck_classified / outcome_classified) "
                 "names the reason, and any reason other than division by zero is reported with the program as replay. The universal "
-                "progress theorem is not claimed; four genuine violations are recorded as known findings (D7, D9, D14, D19).",
+                "progress statement is refuted for today's code by four recorded findings (D7 groups; D9, D14, D19 holes). On the fragment "
+                "where none of them can occur - fully annotated programs without definition groups - progress IS a theorem of the "
+                "models: whatever the checker model accepts without a diagnostic evaluates, for every fuel, to a value of the "
+                "reported type or to a term stuck on a division by zero (accepted_programs_are_safe = soundness of the checker model + "
+                "progress and preservation of the typing rules, from confluence of the repaired definitional equality).",
         "design_ref": "DESIGN.md section 4, C01; section 5",
         "note": "Trusted: Coq kernel, extraction, OCaml driver, harness. Known findings are matched by signature (reason + binder of the stuck variable / hook H1).",
         "technique": "translation validation: implementation run + proved stuck-term classifier (Coq), type-directed program generation",
@@ -453,9 +457,12 @@ MANIFEST_TEXT = {
     "C16": {
         "text": "The round-trip is checked on the implementation itself for every term former in every operand position of every other "
                 "(exhaustive at one level, sampled at two) and for generated programs; the printer model (Coq, over the bare/parenthesised "
-                "partition regenerated from term.rs) must print the same token kinds as the implementation. Partial proof: the universal "
-                "round-trip theorem needs parser completeness on printed terms and is not proved; one genuine violation is a recorded "
-                "finding (D12, pinned by a test in the repository).",
+                "partition regenerated from term.rs) must print the same token kinds as the implementation. Proved of the printer model: for every term without D12 "
+                "and without negative literals (the parser produces none) the printed tokens are a sentence of the grammar regenerated "
+                "from grammar.y, each printing position at the nonterminal the printer intends (print_is_sentence); the exclusions are "
+                "exact on 10395 small terms covering every printing position, non-sentences refuted by a verified recogniser. Partial: "
+                "that the sentence reads back as the SAME term needs parser completeness and is decided on the implementation; one "
+                "genuine violation is a recorded finding (D12, pinned by a test in the repository).",
         "design_ref": "DESIGN.md section 4, C16; section 5 D12, D13",
         "note": "A failure is attributed to D12 only if the term contains an implicit function type with unused variable and the implementation printed exactly what the model prints.",
         "technique": "metamorphic round-trip on the implementation (exhaustive parent x child positions) + Coq printer model differential testing + generated partition obligation",
@@ -488,7 +495,10 @@ MANIFEST_TEXT = {
     },
     "C04": {
         "text": "The value the implementation computes is certified by the proved validator at the program's reported type, and its former "
-                "is compared with the type's weak-head normal form. Per-instance; the preservation theorem is not claimed. Recorded findings: D9, D19.",
+                "is compared with the type's weak-head normal form. Proved on hole-free group-free programs (from confluence): a step keeps "
+                "the type, values of type int / bool / a function type are literals / true or false / functions, and what the checker model "
+                "accepts at int yields an integer literal or stops on a division by zero (preservation_has_type, type_safety_has_type, "
+                "canonical forms, accepted_int_programs_yield_literals). With groups or holes: per-instance. Recorded findings: D9, D19.",
         "design_ref": "DESIGN.md section 4, C04",
         "note": "As C03.",
         "technique": "translation validation of (value, reported type) pairs with a Coq-verified type checker",
@@ -496,13 +506,24 @@ MANIFEST_TEXT = {
     "C05": {
         "text": "Well-typedness of each fully annotated generated program is established by the proved validator on the parser's output; "
                 "the implementation must then accept it with a convertible type, and the elaborated term must equal the source term with "
-                "only cells filled (compared structurally, names and hole identities included).",
+                "only cells filled (compared structurally, names and hole identities included). Proved of the checker MODEL against the "
+                "verified checker, on hole-free programs whose groups are on the definition spine: it never reports an error when the "
+                "verified checker accepts, its type is the verified one with reductions done, and it answers for every large enough "
+                "fuel whenever each applied function type's codomain has a weak-head normal form (tcB_no_false_rejection_spine, "
+                "tcB_complete_hole_free_spine; without that requirement completeness is refuted inside Coq by a program on which the "
+                "model diverges); elaboration identity for every input (tcB_elab_identity).",
         "design_ref": "DESIGN.md section 4, C05",
-        "note": "As C03; completeness is decided per certified instance.",
+        "note": "As C03; completeness of type_checker.rs itself is decided per certified instance; the theorems are about Model B.",
         "technique": "certified generation (Coq-verified checker) + acceptance check + structural elaboration-identity comparison",
     },
     "C06": {
-        "text": "Proved: every evaluation step and every value a term evaluates to is definitionally equal to the term (step_in_conv, "
+        "text": "Proved - coherence, the property's first sentence: on every hole-free program (groups, recursion, any fuel, any well-formed "
+                "context) if running yields a literal / true / false then the checker's normaliser yields the same one "
+                "(whnf_evaluate_lit_ctx), from confluence of the definitional equality (parallel reduction, complete developments, "
+                "Church-Rosser; Proofs/Confluence*.v), which is also CONSISTENT (distinct type formers and literals are not convertible, "
+                "function types injective) and decided by the conversion test on closed hole-free terms (convb_decides_conv). A defect of "
+                "the specification was found on the way and repaired: with the group rule as first written every two terms were "
+                "convertible (conv_old_total is kept as a regression). Proved before: every evaluation step and every value a term evaluates to is definitionally equal to the term (step_in_conv, "
                 "evaluate_in_conv - the group-unfolding step of the evaluator is shown to agree with the normaliser's whole-group "
                 "substitution); a weak-head normal form is never a group; the conversion test never refutes t = t and its success implies "
                 "definitional equality; the conversion test is symmetric (convb_sym) and, whenever both sides have normal forms, answers true "
